@@ -214,6 +214,10 @@ func (e *Env) ident(name string) (Value, error) {
 			}
 		}
 		return nil, fmt.Errorf("key used outside a map range loop clause")
+	case "emptyintset":
+		return ArrayV{T: "((as const (Array Int Bool)) false)", Sort: arrSort(SInt, SBool)}, nil
+	case "emptystrset":
+		return ArrayV{T: "((as const (Array Str Bool)) false)", Sort: arrSort(SStr, SBool)}, nil
 	case "MaxInt64":
 		return intV("9223372036854775807"), nil
 	}
@@ -736,6 +740,69 @@ func (e *Env) call(ex ECall) (Value, error) {
 				args = append(args, v)
 			}
 			return e.specCall(spec, args, nil)
+		case "ite":
+			c, err := e.evalBool(ex.Args[0])
+			if err != nil {
+				return nil, err
+			}
+			a, err := e.eval(ex.Args[1])
+			if err != nil {
+				return nil, err
+			}
+			b, err := e.eval(ex.Args[2])
+			if err != nil {
+				return nil, err
+			}
+			if aa, ok := a.(ArrayV); ok {
+				if bb, ok := b.(ArrayV); ok {
+					return ArrayV{T: Ite(c, aa.T, bb.T), Sort: aa.Sort, Key: aa.Key}, nil
+				}
+			}
+			fa, fb := flatten(a), flatten(b)
+			if len(fa) != len(fb) {
+				return nil, fmt.Errorf("ite branches have different shapes")
+			}
+			out := make([]Term, len(fa))
+			for i := range fa {
+				out[i] = Ite(c, fa[i], fb[i])
+			}
+			v, _ := unflatten(valueType(a), out)
+			return v, nil
+		case "add", "remove":
+			// add(set, x) / remove(set, x) on ghost sets
+			sv, err := e.eval(ex.Args[0])
+			if err != nil {
+				return nil, err
+			}
+			set, ok := sv.(ArrayV)
+			if !ok {
+				return nil, fmt.Errorf("%s needs a ghost set", id.Name)
+			}
+			xv, err := e.eval(ex.Args[1])
+			if err != nil {
+				return nil, err
+			}
+			val := "true"
+			if id.Name == "remove" {
+				val = "false"
+			}
+			return ArrayV{T: Store(set.T, flatten(xv)[0], val), Sort: set.Sort, Key: set.Key}, nil
+		case "callerfresh":
+			// callerfresh(x): the object was allocated during this activation (by the function
+			// under proof or by a callee on its behalf)
+			v, err := e.eval(ex.Args[0])
+			if err != nil {
+				return nil, err
+			}
+			var r Term
+			if mv, ok := v.(MapV); ok {
+				r = mv.Ref
+			} else if rr, ok := objRef(v); ok {
+				r = rr
+			} else {
+				return nil, fmt.Errorf("callerfresh of non-object")
+			}
+			return boolV("(< (rootid " + r + ") 0)"), nil
 		case "preexisting":
 			// preexisting(x): the object was not allocated by this activation
 			v, err := e.eval(ex.Args[0])
